@@ -55,12 +55,12 @@ def cells(tier: str) -> dict:
     add("S3team+X[r2]", S3, "r2")
     add("S5+X", S5, "r", emax=2 * H)
     add("milestone+X", base_milestone, "r")
+    # narrow variants (all efforts within one slot): path trees small enough to be exhausted
+    add("S1x2+X[narrow]", lambda: base_prio(2), "r", emax=H)
+    add("S2x2+X[narrow]", lambda: S2(2), "r", emax=H)
+    add("milestone+X[narrow]", base_milestone, "r", emax=H)
+    add("S3team+X[r2,narrow]", S3, "r2", emax=H)
     if tier != "quick":
-        # narrow variants (all efforts within one slot): path trees small enough to be exhausted
-        add("S1x2+X[narrow]", lambda: base_prio(2), "r", emax=H)
-        add("S2x2+X[narrow]", lambda: S2(2), "r", emax=H)
-        add("milestone+X[narrow]", base_milestone, "r", emax=H)
-        add("S3team+X[r2,narrow]", S3, "r2", emax=H)
         add("S1x3+X", lambda: base_prio(3), "r", emax=2 * H)
         add("S2x3+X", lambda: S2(3), "r", emax=2 * H)
     return out
